@@ -149,14 +149,53 @@ func stubNativeStr1(f func(string) string) stubFn {
 
 func stubPathJoin(p *path, _ *frame, a []value) value {
 	var parts []string
+	symbolic := false
 	for _, e := range a[0].([]value) {
 		s := e.(Str)
 		if !s.IsConcrete() {
-			p.unsupported("path.Join on a symbolic string")
+			symbolic = true
+			break
 		}
 		parts = append(parts, s.Concrete())
 	}
-	return p.mkStr(pathpkg.Join(parts...))
+	if !symbolic {
+		return p.mkStr(pathpkg.Join(parts...))
+	}
+	// symbolic elements: they are assumed to be clean relative paths (symbolic bytes are neither '.'
+	// nor a '/' next to another '/' or at an end), for which Join is concatenation with '/'
+	p.note("path.Join: symbolic elements are assumed clean (no '.', no empty component)")
+	var out []*Term
+	for _, e := range a[0].([]value) {
+		s := e.(Str)
+		if len(s.b) == 0 {
+			continue
+		}
+		if s.IsConcrete() {
+			c := pathpkg.Clean(s.Concrete())
+			if len(out) > 0 {
+				c = strings.TrimPrefix(c, "/")
+			}
+			s = p.mkStr(c)
+		} else {
+			for i, b := range s.b {
+				if b.IsConst() {
+					continue
+				}
+				p.assumeTerm(p.tc.Not(p.tc.Eq(b, p.byteConst('.'))))
+				edge := i == 0 || i == len(s.b)-1
+				if edge {
+					p.assumeTerm(p.tc.Not(p.tc.Eq(b, p.byteConst('/'))))
+				} else {
+					p.assumeTerm(p.tc.Not(p.tc.And(p.tc.Eq(b, p.byteConst('/')), p.tc.Eq(s.b[i+1], p.byteConst('/')))))
+				}
+			}
+		}
+		if len(out) > 0 {
+			out = append(out, p.byteConst('/'))
+		}
+		out = append(out, s.b...)
+	}
+	return Str{out}
 }
 
 // ---------------------------------------------------------------------------
